@@ -547,6 +547,7 @@ func init() {
 			e.snapshotGlobals()
 		} else {
 			e.globalCells = nil
+			e.globalMaps = nil
 		}
 		return nil
 	})
@@ -850,6 +851,7 @@ func (e *Exec) writeTo(c *frame, w Value, s string) {
 // snapshotGlobals records every cell reachable from package-level variables (C18 monitor).
 func (e *Exec) snapshotGlobals() {
 	cells := map[*Value]string{}
+	maps := map[*MapV]string{}
 	var walk func(v Value, name string, depth int)
 	var walkPtr func(p *Value, name string, depth int)
 	walkPtr = func(p *Value, name string, depth int) {
@@ -882,6 +884,10 @@ func (e *Exec) snapshotGlobals() {
 			walk(x.V, name, depth)
 		case *MapV:
 			if x != nil {
+				if _, seen := maps[x]; seen {
+					return
+				}
+				maps[x] = name
 				for _, en := range x.order {
 					walk(en.v, name, depth+1)
 				}
@@ -898,6 +904,7 @@ func (e *Exec) snapshotGlobals() {
 		walkPtr(p, g.Pkg.Pkg.Name()+"."+g.Name(), 0)
 	}
 	e.globalCells = cells
+	e.globalMaps = maps
 }
 
 var learnMu sync.Mutex
